@@ -329,6 +329,55 @@ func genStore() (string, error) {
 			}
 		}
 	}
+	// the guards (enclosing if-conditions, outermost first) of every blockCache.Add in GetBlockByHeight,
+	// and what hasPendingWrites returns
+	var guards []string
+	if fd := ifile.FindFunc("Indexer", "GetBlockByHeight"); fd != nil {
+		var stack []string
+		var walk func(n ast.Node)
+		walk = func(n ast.Node) {
+			switch v := n.(type) {
+			case *ast.IfStmt:
+				if v.Init != nil {
+					walk(v.Init)
+				}
+				stack = append(stack, text(v.Cond))
+				walk(v.Body)
+				stack = stack[:len(stack)-1]
+				if v.Else != nil {
+					stack = append(stack, "!("+text(v.Cond)+")")
+					walk(v.Else)
+					stack = stack[:len(stack)-1]
+				}
+				return
+			case *ast.CallExpr:
+				if g.ExprText(v.Fun) == "blockCache.Add" {
+					guards = append(guards, strings.Join(stack, " && "))
+				}
+			}
+			if n == nil {
+				return
+			}
+			ast.Inspect(n, func(c ast.Node) bool {
+				if c == n || c == nil {
+					return true
+				}
+				walk(c)
+				return false
+			})
+		}
+		walk(fd.Body)
+	}
+	fmt.Fprintf(&b, "/-- `GetBlockByHeight`: the enclosing conditions of each `blockCache.Add` -/\ndef blockCacheAddGuards : List String := %s\n", strList(guards))
+	pending := ""
+	if fd := ifile.FindFunc("Indexer", "hasPendingWrites"); fd != nil && fd.Body != nil {
+		for _, st := range fd.Body.List {
+			if r, ok := st.(*ast.ReturnStmt); ok && len(r.Results) == 1 {
+				pending = text(r.Results[0])
+			}
+		}
+	}
+	fmt.Fprintf(&b, "/-- what `Indexer.hasPendingWrites` returns -/\ndef hasPendingWritesReturns : String := %q\n", pending)
 	fmt.Fprintf(&b, "/-- per function, in source order: the view lookups `t.db.Get(…)`, the cache calls `blockCache.*(…)`, `t.getBlock(…)` -/\ndef blockCacheUse : List (String × String) := %s\n\n", pairList(cacheUse))
 	b.WriteString("end Canopy.Gen.Store\n")
 	return b.String(), nil
